@@ -316,4 +316,18 @@ example : nullCount 1 = Nulls.single ∧ nullCount 2 = Nulls.double ∧ nullCoun
 
 end examples
 
+
+/-! ## 8. the point the O-points are ranked against -/
+
+/-- `find_critical` ranks the O-points by their distance to (Rmid, Zmid). The coordinate arrays are indexed `[iR, iZ]`, so the centre of the
+domain in R is the mean of `R[0, 0]` and `R[-1, 0]` (first and last row), in Z the mean of `Z[0, 0]` and `Z[0, -1]` (first and last column);
+`R[0, -1]` would be `R[0, 0]` again. The entry lists are regenerated from the source on every run. -/
+theorem rmid_reads_first_and_last_row : Gen.R.Critical.Rmid_entries = [(0, 0), (-1, 0)] := rfl
+
+theorem zmid_reads_first_and_last_column : Gen.R.Critical.Zmid_entries = [(0, 0), (0, -1)] := rfl
+
+theorem rmid_is_mean (a b : ℝ) : Gen.R.Critical.Rmid a b = (a + b) / 2 := by unfold Gen.R.Critical.Rmid; ring
+
+theorem zmid_is_mean (a b : ℝ) : Gen.R.Critical.Zmid a b = (a + b) / 2 := by unfold Gen.R.Critical.Zmid; ring
+
 end HypnoModel.Props.C19
